@@ -118,6 +118,18 @@ CLAIMS = {
              "judged. Fixed in /repo while building this check: F7, F8, F16.",
         ref="3 C11", technique="TLA+ model of the file system and the extraction algorithm checked with TLC; TLC-enumerated "
                               "archives replayed into the code, outcome judged and compared with the model by TLC"),
+    "C18": dict(
+        text="CredModel.tla states the docker config file as an abstract document (foreign top-level keys, entries with auth, "
+             "identity/registry tokens, legacy username/password and unknown fields) with the required effect of Put, Get "
+             "(exact key, else legacy URL key) and Delete; MCCred.tla checks RoundTrip, DeleteJustThat, OthersPreserved and "
+             "Atomic (save as file-system steps with a crash before each) exhaustively; on the real FileStore CredMon.tla "
+             "replays sequential histories over several initial documents and address forms comparing every result and "
+             "the parsed file (and its mode) after every step, judges concurrent rounds of 3-5 Get/Put/Delete by searching "
+             "the sequential orders, and judges the file found after a SIGKILL injected (strace) at every system call of "
+             "Put and Delete.",
+        note="Crash = process death. The abstract document compares JSON values canonically (key order and whitespace are "
+             "not significant). Concurrent rounds are un-gated (real parallelism).",
+        ref="3 C18", technique=TECH + " (CredMon.tla incl. linearization search; strace kill injection)"),
     "C19": dict(
         text="Pack.tla states the four packers as a decision table over (version, artifactType class, config class, "
              "config annotations, layers, subject, annotations, target); PackCases.tla model-checks the table and emits "
